@@ -4,6 +4,7 @@ CONSTANTS
   MaxWrites = 2
   MaxSteps = 4
   WithFatalKeep = TRUE
+  WithEof = TRUE
   Variant = "requeue"
 INVARIANT Conforms
 CHECK_DEADLOCK FALSE
